@@ -238,17 +238,25 @@ func redactUpdatePipeline(pipeline []any, shouldEagerRedact bool) []any {
 	return newPipeline
 }
 
+var planSummaryIndexScan = regexp.MustCompile(`IXSCAN\s*\{[^}]+\}`)
+
+// redactFieldNamesFromPlanSummary replaces the index key names of every IXSCAN { a: 1, b.c: -1 }
+// group. Only the key tokens are rewritten, so a name that is a substring of another name, of
+// "IXSCAN" or of an already inserted pseudonym cannot corrupt the rest of the summary.
 func redactFieldNamesFromPlanSummary(planSummary string) string {
-	if planSummary == "COLLSCAN" {
-		return planSummary
-	}
-	result := planSummary
-	fieldNames := ParsePlanSummary(planSummary)
-	for _, fieldName := range fieldNames {
-		hashed := HashName(fieldName)
-		result = strings.ReplaceAll(result, fieldName, hashed)
-	}
-	return result
+	return planSummaryIndexScan.ReplaceAllStringFunc(planSummary, func(group string) string {
+		open := strings.Index(group, "{")
+		fields := strings.Split(group[open+1:len(group)-1], ",")
+		for i, field := range fields {
+			keyVal := strings.SplitN(field, ":", 2)
+			key := strings.TrimSpace(keyVal[0])
+			if key != "" {
+				keyVal[0] = strings.Replace(keyVal[0], key, HashName(key), 1)
+			}
+			fields[i] = strings.Join(keyVal, ":")
+		}
+		return group[:open+1] + strings.Join(fields, ",") + "}"
+	})
 }
 
 func traverseMapPath(path []string, operatorMap *orderedmap.OrderedMap[string, any], isSearchStage bool) (interface{}, bool) {
